@@ -108,6 +108,7 @@ func checkC01(w *World, r *Report) {
 	r.Rule("VEST-REM", "last instalment takes the running remainder", 2)
 	r.Rule("VEST-ONCE", "release transfer ⇔ Released persisted for the same record", 3)
 	r.Rule("VEST-WRITERS", "vesting queue writers", 3)
+	r.Rule("VEST-DISTINCT", "release times are strictly increasing and after the end time (they key the queue)", 4)
 	tm := NewTerms(w)
 	ms := w.msgServerMethods()
 	insts := checkEscRole(w, r, tm)
